@@ -179,6 +179,8 @@ type RecBase struct {
 	Log   *SignLog
 	// Yield, if set, is called at the start of Verify/BatchVerify (interleaving widening).
 	Yield func()
+	// Gate, if set, is called in Verify after Yield with the signature and message; it may block (held verification).
+	Gate func(sig hotstuff.QuorumSignature, message []byte)
 	// counters
 	mu        sync.Mutex
 	NVerify   int
@@ -225,6 +227,9 @@ func (b *RecBase) leave() {
 func (b *RecBase) Verify(sig hotstuff.QuorumSignature, message []byte) error {
 	b.enter(false)
 	defer b.leave()
+	if b.Gate != nil {
+		b.Gate(sig, message)
+	}
 	return b.Inner.Verify(sig, message)
 }
 
